@@ -445,7 +445,7 @@ def check_handshake(ctx, kex, cipher, mac):
 def run(ctx):
     import paramiko
     rng = ctx.rng
-    scale = 6 if ctx.thorough else 1
+    scale = 4 if ctx.thorough else 1
     ctx.rule = ("seeded generator (random.Random('C04-<seed>')): K across sign/byte boundaries up to 4096 bits "
                 "(a few zero / negative), H and session id of 0..64 bytes (equal and different), letters A-F (plus "
                 "a few other one-byte ids), n in 1..512 biased to multiples of the digest length +-1 (plus a "
@@ -477,7 +477,7 @@ def run(ctx):
     try:
         # ---- 1. _compute_key vs model (toy hash) + RFC oracle on the same cases ----------------
         cases = []
-        for j in range(500 * scale):
+        for j in range(300 * scale):
             hl = rng.choice([1, 2, 3, 4, 5, 7, 8, 11, 16, 20, 32, 48, 64])
             malformed = rng.random() < 0.06
             K = gen_K(rng)
